@@ -755,6 +755,30 @@ class C18Executor(Executor):
             return transport_call(self, st, f, args, kwargs, node)
         return super().call(st, f, args, kwargs, node)
 
+    # -- `f(**d)` with a dict whose keys are known (round 6) -------------------------
+    def e_Call(self, n, st):
+        if not any(k.arg is None for k in n.keywords) or self.is_logger_call(n):
+            return super().e_Call(n, st)
+        out = []
+        for (s, f) in self.ev(n.func, st):
+            for (s2, args) in self.ev_list(n.args, s):
+                for (s3, kwvals) in self.ev_list([k.value for k in n.keywords], s2):
+                    kwargs = {}
+                    for k, v in zip(n.keywords, kwvals):
+                        if k.arg is not None:
+                            items = {k.arg: v}
+                        else:
+                            o = s3.obj(v.ref) if isinstance(v, VRef) else None
+                            if o is None or o.kind != "dict" or o.data is None or not all(isinstance(x, str) for x in o.data):
+                                self.unsupported(n, "**kwargs call")
+                            items = o.data
+                        for name, val in items.items():
+                            if name in kwargs:
+                                self.unsupported(n, f"keyword argument {name} given twice")
+                            kwargs[name] = val
+                    out.extend(self.call(s3, f, args, kwargs, n))
+        return out
+
     # -- context managers (round 6) ----------------------------------------------
     def canonical_name(self, e):
         """Dotted origin of a Name / Attribute chain through the module's imports (None when not an imported name)."""
